@@ -751,7 +751,17 @@ func runNpmOnce(cs *caseSpec, dir string) (o outcome) {
 	}
 	if werr != nil {
 		o.writeErr = werr.Error()
-		return // accepted: explicit failure
+		excused := false
+		for _, u := range cs.Updates {
+			if u.From != "" || u.Absent {
+				excused = true // a stale update must be rejected; an update of an absent package may be
+			}
+		}
+		if !excused {
+			// every update carries the VersionFrom Read reported for a requirement of this file
+			bad("npm:valid-update-rejected", "every update is addressed to a requirement Read reported (VersionFrom = its version), but Write failed: %v", werr)
+		}
+		return
 	}
 	out, err := os.ReadFile(outPath)
 	if err != nil {
